@@ -41,12 +41,25 @@ class BaseModel:
                     return [(("vec", e[4][1]), None)]
         if self.fork_next and re.search(r"iter::Iterator>::next$", name):
             it = ex.deref_val(path, args[0])
+            # an iterator of the std collections that answered None stays exhausted (FusedIterator)
+            # identity of the iterator object: the location behind all the references (`&mut it`, `it.by_ref()`, `&mut &mut it`)
+            a_ = args[0]
+            n_ = 0
+            while a_[0] == "ref" and n_ < 6:
+                inner_ = ex.read_loc(path, a_[1])
+                if inner_[0] != "ref":
+                    break
+                a_ = inner_
+                n_ += 1
+            itkey = ("sym", "__exhausted__:" + (repr(a_[1]) if a_[0] == "ref" else S.fstr(it)))
+            if path.heap.get((itkey, ())) == ("bool", True) and re.search(r"slice::Iter|vec::IntoIter|btree_|hash_map|hash_set|Enumerate<std::slice::Iter|str::CharIndices|str::Chars", t.get("callee_self") or ""):
+                return [(none(), None)]
             item = ("sym", "item@bb%d" % bb)
             self_ty = t.get("callee_self") or ""
             # slice iterators yield references
             if self_ty.startswith("std::slice::Iter") or "btree_set::Iter" in self_ty or "hash_map::Iter" in self_ty:
                 item = ("ref", ("loc", item, ()), False)
-            return [(none(), None), (some(item), None)]
+            return [(none(), None, [(("loc", itkey, ()), ("bool", True))]), (some(item), None)]
         return None
 
 
@@ -97,7 +110,7 @@ def heap_writes(path, field=None):
     """Writes to non-local objects: list of (root, steps, value)."""
     out = []
     for e in path.events:
-        if e[0] == "write" and e[2][0] != "local":
+        if e[0] == "write" and e[2][0] != "local" and not (e[2][0] == "sym" and str(e[2][1]).startswith("__")):
             if field is None or any(st[0] == "f" and st[1] == field for st in e[3]):
                 out.append((e[2], e[3], e[4], e[1]))
     return out
